@@ -583,17 +583,33 @@ func (p *Program) injectInvalid() {
 			names[i] = p.name("Tc")
 		}
 		wrap := ch("invalid.cycle-wrap", 3)
+		// where two files include each other, the cycle may run across both
+		home := make([]*File, n)
+		for i := range home {
+			home[i] = f
+		}
+		if n > 1 {
+			for _, j := range f.Includes {
+				if g := p.Files[j]; contains(g.Includes, f.Index) && simrt.Flip("invalid.cycle-across-files", 0.6) {
+					for i := 1; i < n; i += 2 {
+						home[i] = g
+					}
+					break
+				}
+			}
+		}
 		for i := range names {
-			t := &TypeRef{Ref: &Ref{f.Index, names[(i+1)%n]}}
+			t := &TypeRef{Ref: &Ref{home[(i+1)%n].Index, names[(i+1)%n]}}
 			if i == 0 && wrap == 1 {
 				t = &TypeRef{Base: "list", Elem: t}
 			} else if i == 0 && wrap == 2 {
 				t = &TypeRef{Base: "map", Key: &TypeRef{Base: "string"}, Elem: t}
 			}
-			p.add(f, &Def{Kind: KTypedef, Name: names[i], Type: t})
+			p.add(home[i], &Def{Kind: KTypedef, Name: names[i], Type: t})
 		}
 		if simrt.Flip("invalid.cycle-used", 0.5) {
-			p.add(f, &Def{Kind: KStruct, Name: p.name("S"), Fields: []*FieldDef{{ID: 1, Name: "loop", Req: ReqOptional, Type: &TypeRef{Ref: &Ref{f.Index, names[ch("invalid.cycle-entry", n)]}}}}})
+			k := ch("invalid.cycle-entry", n)
+			p.add(home[k], &Def{Kind: KStruct, Name: p.name("S"), Fields: []*FieldDef{{ID: 1, Name: "loop", Req: ReqOptional, Type: &TypeRef{Ref: &Ref{home[k].Index, names[k]}}}}})
 		}
 		p.Invalid = "typedef cycle in " + f.RelPath()
 	case 7:
